@@ -69,7 +69,7 @@ def stats(res, c, rc, rep):
         elif content == 'U':
             res.count('log=directory')
         else:
-            b = bytes.fromhex(content)
+            b = rp_common.cbytes(content)
             n = b.count(b'\n')
             if b'\x00' in b:
                 res.count('log=nul')
@@ -262,11 +262,16 @@ def run(ctx, n=None):
                 'logs up to 1 MiB, no final newline, trace-only, blank lines at either end, NUL and CR bytes, regress markers and outcome keywords, suite names that '
                 'are prefixes of one another, more than 17 rows, cvs logs present/empty/missing/a directory, comment/tags/target variants, missing lock file or step '
                 'file; plus build directories written by the real canvas script (completed, failed, killed in flight, killed between the in-flight record and '
-                'tee\'s open); non-trivial = a report was produced with at least one section or a non-ok status; distinct by content hash of the case')
+                'tee\'s open); about 5 % of the generated cases and corpus/C05/b05_*.json (one family per file) come from the boundary classes of rp_common ("class: ..." in '
+                'the input distribution): log lines / logs / excerpts of 0, 1, 254..256, 1023..1025, 4095..4097, 8191..8193, 65535/65536 bytes, 0..256 lines, the tenth-from-last '
+                'line at a block boundary, runs of NUL / CR / newlines, trace-only logs of a block size, comment / tags / target / cvs logs at those lengths, step names up to '
+                '8193 and log names up to 3900 bytes, names next to cvs / dpb / checkflist / end / a suite, names with blanks or shell syntax, 0..256 rows / failing / '
+                'skipped / trailing skipped rows; non-trivial = a report was produced with at least one section or a non-ok status; distinct by content hash of the case')
     n = n or ctx.budget(450, 12000)
     cases = rp_common.load_corpus('C05') + [rp_common.gen_case(ctx.rng) for _ in range(n)]
     res.samples = [{'mode': c['mode'], 'rows': c['rows'][:3]} for c in cases[:3]]
-    res.assumptions = ['bytes 0..255; up to ~90 rows and logs up to 1 MiB in the correspondence (the theorems have no bound)']
+    res.assumptions = ['bytes 0..255; up to 259 rows, logs up to 1 MiB, step names up to 8193 bytes (the model\'s step-file reader is too slow beyond), regress test '
+                       'blocks up to 16 KiB, log paths below PATH_MAX in the correspondence (the theorems have no bound)']
     run_cases(ctx, cases, res)
     ctx.shims_used = orch_env.SHIMS_USED
     e2e_lane(ctx, ctx.build_impl(), rp_common.build_rp_driver(ctx), res, ctx.budget(12, 120))
